@@ -405,7 +405,7 @@ func c02nil(c *an.Ctx) {
 					return
 				}
 				nUses++
-				if !an.FactIs(st, v.Name()+" == nil", false) && bad == nil {
+				if !an.FactIs(st, an.RoleOf(v)+" == nil", false) && bad == nil {
 					bad = n
 				}
 			}
